@@ -137,10 +137,11 @@ def main():
     ap.add_argument("--tier", default="quick")
     ap.add_argument("--jobs", type=int, default=4)
     ap.add_argument("--props", default="", help="comma-separated property ids to run instead of the seed's own")
+    ap.add_argument("--results", default=os.path.join(SEEDED, "RESULTS.json"), help="file the results are merged into")
     a = ap.parse_args()
     names = a.names or sorted(n for n in os.listdir(SEEDED) if os.path.isdir(os.path.join(SEEDED, n)))
     os.makedirs(SCRATCH, exist_ok=True)
-    rp = os.path.join(SEEDED, "RESULTS.json")
+    rp = a.results
     results = json.load(open(rp)) if os.path.exists(rp) else {}
 
     def job(n):
